@@ -30,6 +30,12 @@ func c02Program(r gen.R) (*sl.Program, []string, map[int]string) {
 		"SecRequestBodyLimitAction " + gen.Pick(r, []string{"Reject", "ProcessPartial"}),
 		"SecResponseBodyAccess On", "SecResponseBodyMimeType text/plain", "SecResponseBodyLimit 64",
 		"SecResponseBodyLimitAction " + gen.Pick(r, []string{"Reject", "ProcessPartial"})}
+	if gen.Chance(r, 0.6) {
+		// the logging phase decides relevance from the (would-be) interruption: it must cope with every
+		// combination of engine mode, ctl switch and interruption the sequences produce
+		p.Header = append(p.Header, "SecAuditEngine "+gen.Pick(r, []string{"RelevantOnly", "RelevantOnly", "On"}),
+			"SecAuditLogRelevantStatus \"^(?:4|5)\"", "SecAuditLogParts ABHKZ", "SecAuditLogType Serial", "SecAuditLog /dev/null")
+	}
 	var steers []string
 	sw := map[int]string{}
 	for ph := 1; ph <= 4; ph++ {
